@@ -4023,8 +4023,10 @@ class BnfEmitter(bnfListener.bnfListener):
                 for alternative in expansion
             ]
 
-        if free_langle_nonterminal not in unreachable_nonterminals(
-            self.result | {free_langle_nonterminal: ["<"]}
+        if any(
+            free_langle_nonterminal in alternative
+            for expansion in self.result.values()
+            for alternative in expansion
         ):
             self.result[free_langle_nonterminal] = ["<"]
 
